@@ -339,15 +339,29 @@ func vInfixShape(op pAst.InfixOperator) int {
 // $lambda_<n> with a fresh n, so it is not the function being compiled; the
 // freshness of the formatted name is the assumed part below).
 
+/*@ func (self *Compiler) addFn
+    serves C01, C11, C15
+    requires haskey(self.modules, self.currModule) && self.modules[self.currModule] != nil
+    ensures @added haskey(self.modules[self.currModule], srcIdent) && self.modules[self.currModule][srcIdent] != nil && fresh(self.modules[self.currModule][srcIdent])
+    ensures @empty len(self.modules[self.currModule][srcIdent].Instructions) == 0 && len(self.modules[self.currModule][srcIdent].SourceMap) == 0 && self.modules[self.currModule][srcIdent].MangledName == mangledName
+    ensures @rest-kept self.currModule == old(self.currModule) && samemap(self.modules, old(self.modules)) && samemap(self.modules[self.currModule], old(self.modules[self.currModule]))
+@*/
+
 /*@ func (self *Compiler) compileFn
     serves C01, C11, C15
-    trusted
-    requires self.scopesWF()
-    ensures @scope-stack-balanced self.scopesWF() && len(self.varScopes) == old(len(self.varScopes)) && forall i in 0..len(self.varScopes) :: samemap(self.varScopes[i], old(self.varScopes[i]))
+    assume-safety
+    requires self.scopesWF() && haskey(self.modules, self.currModule) && self.modules[self.currModule] != nil
+    ensures @scope-stack-balanced self.scopesWF() && len(self.varScopes) == old(len(self.varScopes))
+    ensures @scopes-kept forall i in 0..len(self.varScopes) :: samemap(self.varScopes[i], old(self.varScopes[i]))
     ensures @loop-stack-balanced len(self.loops) == old(len(self.loops))
     ensures @handlers-balanced self.tryDepth == old(self.tryDepth)
     ensures @no-scope-changed forall m map[string]string in allocated :: samecontent(m, old(m))
     ensures @same-module self.currModule == old(self.currModule) && samemap(self.modules, old(self.modules))
+    assume @trigger-arguments-are-another-function after self.currFn = currFnOld :: self.aligned() && self.CurrFn() == entry(self.CurrFn())
+    assert @body-starts-outside-try before self.compileBlock(node.Body, false) :: self.tryDepth == 0
+    loopinvariant self.scopesWF() && self.aligned() && len(self.varScopes) == entry(len(self.varScopes)) && len(self.loops) == entry(len(self.loops)) && self.tryDepth == entry(self.tryDepth) && self.currFn == entry(self.currFn) && self.currModule == entry(self.currModule) && samemap(self.modules, entry(self.modules)) && self.CurrFn() == entry(self.CurrFn())
+    loopinvariant forall i in 0..len(self.varScopes) :: samemap(self.varScopes[i], entry(self.varScopes[i]))
+    loopinvariant forall m map[string]string in allocated :: !samemap(m, self.varScopes[len(self.varScopes)-1]) ==> samecontent(m, entry(m))
 @*/
 
 /*@ func (self *Compiler) compileExpr
